@@ -1083,6 +1083,7 @@ package sio
 //@   onstore packets
 //@     requires recv == pq && wheld(pq.mu) [C02.pq.get.atomic]
 //@   ensures packets == old(pq.packets) && len(pq.packets) == 0 [C02.pq.get.all]
+//@   ensures arr(pq.packets) == 0 || arr(pq.packets) != arr(packets) [C02.pq.get.batch.not.shared]
 //@   ensures !held(pq.mu) [C02.pq.get.released]
 
 // poll: whatever it returns as ok came from one get (so it is a whole prefix of the FIFO, in order).
@@ -1399,3 +1400,26 @@ package sio
 //@     requires asked && isvar && arg0 == args [C03.invoke.variadic.through.callslice]
 //@     update invoked = invoked + 1
 //@   ensures invoked == 1 [C03.invoke.once]
+
+// C05 (client): an event that arrives before the server accepted this namespace's CONNECT is buffered, never handed
+// to the handlers (the namespace may still be refused).
+//@ func (*clientSocket).onEvent
+//@   opt safety off
+//@   requires handler != nil && header != nil
+//@   ghost called int = 0
+//@   callsite decode skip
+//@   callsite onError skip
+//@   callsite (*clientSocket).callEvent skip
+//@     requires s.state == clientSocketConnStateConnected [C05.cli.event.only.when.attached]
+//@     update called = called + 1
+//@   ensures s.state != clientSocketConnStateConnected ==> called == 0 [C05.cli.event.buffered.until.attached]
+
+// C05 (client): a namespace whose CONNECT the server refused is not attached and not pending any more - the client must
+// not address it again on the shared connection (a DISCONNECT for it would make the server close the whole connection).
+//@ func (*clientSocket).onConnectError
+//@   opt safety off
+//@   callsite decode skip
+//@   callsite (*clientSocket).destroy skip
+//@   callsite onError skip
+//@   callsite forEach skip
+//@   ensures s.state == clientSocketConnStateDisconnected [C05.cli.refused.not.attached]
